@@ -243,8 +243,12 @@ def do_c11():
         sc = scale(par, p0, seq[-1]); pitch = abs(TWO_PI * (ALPHA / par[2]) * par[4])
         cur, cp, ce = par, p0, E
         acc = 0.0; half = False
+        # rounding: a matrix moved through a pivot close to the circle centre has entries ~ (r / distance)^2 times larger, and the way
+        # back inherits eps * that size as ABSOLUTE error; comparisons of error matrices allow 1e-12 * the largest intermediate entry
+        emax = [0.0 if E is None else float(np.abs(E).max())]
         for p in seq:
             nxt, npv, ne = move(fe, cur, cp, p, ce); n_eval += 1
+            if ne is not None: emax.append(float(np.abs(ne).max()))
             d = wrap(nxt[1] - cur[1]); acc += d
             if abs(abs(d) - math.pi) < 1e-6: half = True
             # fl(2*pi) itself is below the real number 2*pi, but a correct modulo never returns it from an exact 0 / 2*pi angle
@@ -269,7 +273,7 @@ def do_c11():
         if E is not None and abs(acc) < math.pi - 1e-6 and k == 0 and ce is not None and de is not None:
             n_eval += 1
             sd = np.sqrt(np.abs(np.diag(de))) + 1e-300
-            if np.abs((ce - de) / np.outer(sd, sd)).max() > 1e-5 * len(seq) and not np.allclose(ce, de, rtol=1e-6, atol=1e-12 * (1 + np.abs(de).max())):
+            if np.abs((ce - de) / np.outer(sd, sd)).max() > 1e-5 * len(seq) and not np.allclose(ce, de, rtol=1e-6, atol=1e-12 * (1 + np.abs(de).max()) + 1e-12 * max(emax)):
                 report(f"C11:error-path-dependent:{q}:{fe}", "error matrix after a sequence of pivots differs from the direct move (accumulated turning angle within half a turn)",
                        {"par": par, "pivot": p0, "seq": seq, "error": E.tolist()})
         if canonical(par):
@@ -278,12 +282,14 @@ def do_c11():
                 report(f"C11:identity:{q}:{fe}", "move to the current pivot changed the parameters", {"par": par, "pivot": p0, "out": same})
             if E is not None and not np.allclose(se, E, rtol=1e-7, atol=1e-14):
                 report(f"C11:identity-error:{q}:{fe}", "move to the current pivot changed the error matrix", {"par": par, "pivot": p0})
-            back, _, be = move(fe, *move(fe, par, p0, seq[0], E)[:2], p0, move(fe, par, p0, seq[0], E)[2]); n_eval += 1
+            there = move(fe, par, p0, seq[0], E)
+            back, _, be = move(fe, *there[:2], p0, there[2]); n_eval += 1
+            mid = 0.0 if there[2] is None else float(np.abs(there[2]).max())
             d01 = wrap(move(fe, par, p0, seq[0])[0][1] - par[1])
             if abs(abs(d01) - math.pi) > 1e-3:
                 if abs(back[0] - par[0]) > 1e-7 * sc or abs(wrap(back[1] - par[1])) > 1e-8 or abs(back[3] - par[3]) > 1e-7 * sc * (1 + abs(par[4])):
                     report(f"C11:inverse:{q}:{fe}", "there-and-back does not restore the parameters", {"par": par, "pivot": p0, "via": seq[0], "out": back})
-                if E is not None and not np.allclose(be, E, rtol=1e-5, atol=1e-9 * (1 + np.abs(E).max())):
+                if E is not None and not np.allclose(be, E, rtol=1e-5, atol=1e-9 * (1 + np.abs(E).max()) + 1e-12 * mid):
                     report(f"C11:inverse-error:{q}:{fe}", "there-and-back does not restore the error matrix", {"par": par, "pivot": p0, "via": seq[0]})
     samples.append({"helix": par, "pivot": p0, "sequence": seq, "form": fe})
 
